@@ -23,8 +23,9 @@ let enumerate (alpha : 'a list) (n : int) : 'a list list =
 
 let show_ranges rs = String.concat "," (List.map (fun (a,b) -> Printf.sprintf "%d-%d" (int_of_n a) (int_of_n b)) rs)
 
-let show_flags st =
-  Printf.sprintf "n%s,x%s,v%s,q%s,s%s,r[%s],p%s" (b01 st.s_negate) (b01 st.s_multi) (b01 st.s_uvlist)
+(* g: STRINGMATCHER_FLAG_REGEXVALID (not predicted while the regex is outside the Ere model) *)
+let show_flags sup st =
+  Printf.sprintf "g%s,n%s,x%s,v%s,q%s,s%s,r[%s],p%s" (if sup then b01 st.s_valid else "-") (b01 st.s_negate) (b01 st.s_multi) (b01 st.s_uvlist)
     (b01 (is_unique st)) (b01 st.s_simple) (show_ranges st.s_ranges) (hex_of_str st.s_pattern)
 
 let show_static p =
@@ -55,7 +56,7 @@ let () =
         let (st', ok) = set_pattern ere_engine prior p simple in
         st := st'; sup := s_ok;
         add (Printf.sprintf "%s=%s,%s,%s" tag (if not s_ok then "U" else if ok then "ok" else "err")
-               (show_flags st') (show_static p)) in
+               (show_flags s_ok st') (show_static p)) in
       List.iter (fun op ->
         match String.split_on_char ':' op with
         | ["sp"; h; m] -> set_pat_op !st (str_of_hex h) true m "sp"
@@ -71,9 +72,9 @@ let () =
             let (tmp, _) = set_pattern ere_engine sm_init p (si = "1") in
             let tmp = set_negate tmp (ng = "1") in
             st := sm_assign ere_engine !st tmp; sup := s_ok;
-            add (Printf.sprintf "as=%s" (show_flags !st))
-        | ["ng"; b] -> st := set_negate !st (b = "1"); add (Printf.sprintf "ng=%s" (show_flags !st))
-        | ["rs"] -> st := sm_reset !st; sup := true; add (Printf.sprintf "rs=%s" (show_flags !st))
+            add (Printf.sprintf "as=%s" (show_flags !sup !st))
+        | ["ng"; b] -> st := set_negate !st (b = "1"); add (Printf.sprintf "ng=%s" (show_flags !sup !st))
+        | ["rs"] -> st := sm_reset !st; sup := true; add (Printf.sprintf "rs=%s" (show_flags !sup !st))
         | ["m"; h] ->
             add (if !sup then "m=" ^ b01 (matches !st (str_of_hex h)) else "m=-")
         | ["e"; ha; n] ->
